@@ -151,3 +151,64 @@ macro_rules! pa {
         assert!($c, concat!("[", $p, "] ", stringify!($c)))
     };
 }
+
+/// Pseudo-random inputs for the native self-test of oracles (never part of a decision)
+pub struct RandomNondet {
+    pub state: u64,
+}
+
+impl RandomNondet {
+    pub fn new(seed: u64) -> Self {
+        RandomNondet { state: seed.wrapping_mul(0x9E3779B97F4A7C15) | 1 }
+    }
+    fn next(&mut self) -> u64 {
+        // xorshift64*
+        let mut x = self.state;
+        x ^= x >> 12;
+        x ^= x << 25;
+        x ^= x >> 27;
+        self.state = x;
+        x.wrapping_mul(0x2545F4914F6CDD1D)
+    }
+}
+
+impl Nondet for RandomNondet {
+    fn u8(&mut self) -> u8 {
+        // small values most of the time so that `below(n)` assumptions hold often
+        let r = self.next();
+        if r & 3 != 0 { ((r >> 8) % 4) as u8 } else { (r >> 16) as u8 }
+    }
+    fn u16(&mut self) -> u16 {
+        self.next() as u16
+    }
+    fn u32(&mut self) -> u32 {
+        self.next() as u32
+    }
+    fn u64(&mut self) -> u64 {
+        self.next()
+    }
+    fn i32(&mut self) -> i32 {
+        let r = self.next();
+        match r & 7 {
+            0 => i32::MIN,
+            1 => i32::MAX,
+            2 | 3 | 4 => ((r >> 8) % 9) as i32 - 4,
+            5 => 31 + ((r >> 8) & 1) as i32,
+            _ => (r >> 16) as i32,
+        }
+    }
+    fn f64(&mut self) -> f64 {
+        ((self.next() >> 11) as f64) / 1024.0 - 1000.0
+    }
+    fn bool(&mut self) -> bool {
+        self.next() & 1 == 1
+    }
+    fn usize(&mut self) -> usize {
+        (self.next() % 8) as usize
+    }
+    fn assume(&mut self, cond: bool) {
+        if !cond {
+            std::panic::panic_any(AssumptionViolated);
+        }
+    }
+}
